@@ -160,8 +160,9 @@ Inductive matom := MUser (a : uatom) | MCompare (ne : bool) (index local : nat).
 (* `#(#concatenated_guards)&&*` : the guards are TOKEN streams joined by `&&`
    and the result is parsed by rustc.  `&&` binds tighter than `||`, so what
    is joined on the right attaches to the LAST operand of a top-level `||`
-   chain of the left stream (render_guard parenthesises only the comparisons,
-   the user's guard is spliced bare). *)
+   chain of the left stream.  render_guard parenthesises the comparisons and
+   (since the repair of finding F3) render_success_arm parenthesises the user's
+   guard, so no stream that is joined has a bare top-level `||`. *)
 Fixpoint concat_and {A} (a b : bexp A) : bexp A :=
   match a with
   | BOr x y => BOr x (concat_and y b)
@@ -227,7 +228,7 @@ Definition generate (input : minput) : closure :=
   | [] => CAlways
   | _ =>
       let kinds := analyze_args alts in
-      let global_guards := match guard with Some g => [bmap MUser g] | None => [] end in
+      let global_guards := match guard with Some g => [BParen (bmap MUser g)] | None => [] end in
       let matchers := all_matchers 0 alts in
       let success := map (success_arm global_guards) matchers in
       let diag := match guard with None => [diagnostics_arm matchers] | Some _ => [] end in
